@@ -1385,6 +1385,11 @@ class Emitter:
         c = self.contracts.get(self.fc.cname, {}).get('loops', {}).get(o)
         return o, (c or '')
 
+    def lc_with_temps(self, lc, decls):
+        names = [d.split()[-1].rstrip(';') for d in decls]
+        if not lc or not names: return lc
+        return re.sub(r'__CPROVER_assigns\(([^\n]*)\)', lambda m: '__CPROVER_assigns(%s, %s)' % (m.group(1), ', '.join(names)) if m.group(1).strip() else '__CPROVER_assigns(%s)' % ', '.join(names), lc, count=1)
+
     def s_ForStmt(self, n):
         o, lc = self.loop_contract(n, 'for')
         init, condvar, cond, inc, body = n['inner']
@@ -1393,6 +1398,7 @@ class Emitter:
         ce = strip_parens(self.E(cond)) if cond.get('kind') else '1'
         ie = strip_parens(self.E(inc)) if inc.get('kind') else ''
         decls = self.fc.temps; self.fc.temps = saved
+        lc = self.lc_with_temps(lc, decls)
         out = ['{'] + ['  ' + l for l in pre + decls] + ['  for (; %s; %s) /*loop %d*/' % (ce, ie, o)]
         if lc: out += ['  ' + l for l in lc.split('\n')]
         out += ['  ' + l for l in self.block(body)] + ['}']
@@ -1405,6 +1411,7 @@ class Emitter:
         saved = self.fc.temps; self.fc.temps = []
         ce = strip_parens(self.E(cond))
         decls = self.fc.temps; self.fc.temps = saved
+        lc = self.lc_with_temps(lc, decls)
         out = decls + ['while (%s) /*loop %d*/' % (ce, o)]
         if lc: out += lc.split('\n')
         out += self.block(body)
@@ -1417,6 +1424,7 @@ class Emitter:
         saved = self.fc.temps; self.fc.temps = []
         ce = strip_parens(self.E(cond))
         decls = self.fc.temps; self.fc.temps = saved
+        lc = self.lc_with_temps(lc, decls)
         out = decls + ['do /*loop %d*/' % o]
         if lc: out += lc.split('\n')
         out += self.block(body) + ['while (%s);' % ce]
@@ -1434,6 +1442,7 @@ class Emitter:
         saved = self.fc.temps; self.fc.temps = []
         ce = strip_parens(self.E(cond)); ie = strip_parens(self.E(inc))
         decls = self.fc.temps; self.fc.temps = saved
+        lc = self.lc_with_temps(lc, decls)
         lvl = self.stmt(lv)
         b = self.stmt(body)
         if body.get('kind') == 'CompoundStmt': b = b[1:-1]
